@@ -5,6 +5,7 @@ set -u
 V=/verif
 cd $V
 mode=${1:-all}
+mkdir -p $V/build $V/evidence $V/replays
 JOBS=${VERIF_JOBS:-16}
 fail() { echo "ERROR build: $*" >&2; exit 2; }
 
@@ -30,14 +31,30 @@ sys.exit(2 if bad else 0)
 PY
 }
 
+project() {
+  cd $V/coq
+  ( flock 9
+    { echo "-Q theories Phil"; find theories -name '*.v' ! -path 'theories/Extraction/*' | sort; } > _CoqProject.new
+    if ! cmp -s _CoqProject.new _CoqProject 2>/dev/null || [ ! -f Makefile ]; then
+      mv _CoqProject.new _CoqProject; coq_makefile -f _CoqProject -o Makefile >/dev/null || fail coq_makefile
+    else rm _CoqProject.new; fi
+  ) 9> $V/build/.project.lock
+  cd $V
+}
+
 build_coq() {
   lint
+  project
   cd $V/coq
-  # _CoqProject lists every .v except Extraction/
-  { echo "-Q theories Phil"; find theories -name '*.v' ! -path 'theories/Extraction/*' | sort; } > _CoqProject.new
-  if ! cmp -s _CoqProject.new _CoqProject; then mv _CoqProject.new _CoqProject; coq_makefile -f _CoqProject -o Makefile >/dev/null || fail coq_makefile; else rm _CoqProject.new; fi
-  [ -f Makefile ] || coq_makefile -f _CoqProject -o Makefile >/dev/null || fail coq_makefile
   timeout 3000 make -j$JOBS > $V/build/coq.log 2>&1 || { tail -30 $V/build/coq.log >&2; fail "make (see build/coq.log)"; }
+  cd $V
+}
+
+build_cone() {
+  project
+  cd $V/coq
+  timeout 3000 make -j$JOBS "$@" > $V/build/cone.$$.log 2>&1 || { tail -30 $V/build/cone.$$.log >&2; rm -f $V/build/cone.$$.log; fail "make $*"; }
+  rm -f $V/build/cone.$$.log
   cd $V
 }
 
@@ -64,10 +81,12 @@ clusters() { ls $V/coq/theories/Extraction/Extract*.v 2>/dev/null | sed -E 's/.*
 
 case $mode in
   coq) build_coq ;;
-  driver) build_coq; build_driver $2 ;;
+  project) project ;;
+  lint) lint ;;
+  cone) shift; build_cone "$@" ;;
+  driver) build_cone theories/Model/Entry$2.vo; build_driver $2 ;;
   drivers) for c in $(clusters); do build_driver $c & done; wait ;;
   all)
-    mkdir -p $V/build $V/evidence $V/replays
     build_coq
     pids=()
     for c in $(clusters); do build_driver $c & pids+=($!); done
